@@ -177,7 +177,12 @@ func (p *parser) recover(errp *error) {
 }
 
 // stopParse terminates parsing.
+// The lexer goroutine blocks on its token channel until every token has been
+// received, so drain the channel to let it run to completion and exit.
 func (p *parser) stopParse() {
+	if p.lex != nil {
+		p.lex.drain()
+	}
 	p.lex = nil
 }
 
